@@ -48,6 +48,9 @@ def c10_reference(n, arcs):
         for sub, nodes in ((g.get_ancestral_graph(N[x]), anc | {x}), (g.get_descendant_graph(N[x]), reach[x] | {x})):
             if {ix[v] for v in sub.get_node_names()} != nodes or {(ix[a], ix[b]) for a, b in sub.get_edge_pairs()} != {(a, b) for a, b in arcs if a in nodes and b in nodes}:
                 return f'ancestral / descendant sub-graph of {N[x]!r} is not the induced sub-graph'
+        for sub, star in ((g.get_parents_graph(N[x]), {(a, b) for a, b in arcs if b == x}), (g.get_children_graph(N[x]), {(a, b) for a, b in arcs if a == x})):
+            if {(ix[a], ix[b]) for a, b in sub.get_edge_pairs()} != star or {ix[v] for v in sub.get_node_names()} != {x} | {v for e in star for v in e}:
+                return f'parents / children graph of {N[x]!r} is not the star of its directed edges'
     for x in range(n):
         for y in range(n):
             if x == y:
@@ -65,6 +68,16 @@ def c10_reference(n, arcs):
                 return f'directed_path_exists({N[x]!r},{N[y]!r}) wrong'
             if g.is_ancestor(N[x], N[y]) != (y in reach[x]):
                 return f'is_ancestor({N[x]!r},{N[y]!r}) wrong'
+            if g.is_descendant(N[x], N[y]) != (x in reach[y]):
+                return f'is_descendant({N[x]!r},{N[y]!r}) wrong'
+            ca = {v for v in range(n) if x in reach[v] and y in reach[v]}
+            got = {ix[v] for v in g.get_common_ancestors(N[x], N[y])}
+            if got != ca:
+                return f'get_common_ancestors({N[x]!r},{N[y]!r}) = {sorted(N[v] for v in got)}, the common ancestors are {sorted(N[v] for v in ca)}'
+            cd = reach[x] & reach[y]
+            got = {ix[v] for v in g.get_common_descendants(N[x], N[y])}
+            if got != cd:
+                return f'get_common_descendants({N[x]!r},{N[y]!r}) = {sorted(N[v] for v in got)}, the common descendants are {sorted(N[v] for v in cd)}'
     if n <= 6:
         orders = sorted(list(p) for p in itertools.permutations(range(n)) if all(p.index(a) < p.index(b) for a, b in arcs))
         got = sorted([ix[v] for v in o] for o in g.get_topological_order(return_all=True))
